@@ -62,11 +62,26 @@ theorem sortKV_sorted {α : Type} (kvs : List (String × α)) (h : strictKeys kv
   rw [foldl_insKV_sorted kvs [] h (fun _ _ => trivial)]
   simp
 
+/-- `sortKV` (the JSON tree's key order) is the order in which a record literal evaluates its entries -/
+theorem insKV_eq_insKey {α : Type} (k : String) (v : α) (l : List (String × α)) : insKV k v l = insKey k v l := by
+  induction l with
+  | nil => rfl
+  | cons kv rest ih => obtain ⟨k', v'⟩ := kv; simp only [insKV, insKey, ih]
+
+theorem sortKV_eq_canonKVs {α : Type} (kvs : List (String × α)) : sortKV kvs = canonKVs kvs := by
+  simp only [sortKV, canonKVs, insKV_eq_insKey]
+
+theorem normKEs_eq_map (kes : List (String × Expr)) : normKEs kes = kes.map (fun ke => (ke.1, normE ke.2)) := by
+  induction kes with
+  | nil => simp [normKEs]
+  | cons ke kes ih => obtain ⟨k, e⟩ := ke; simp only [normKEs, List.map_cons, ih]
+
 /-! ### the fragment -/
 
 mutual
-/-- expressions on which `normE` changes nothing but decimal / ip literal values (whose text form parses back):
-    record literals strictly key-sorted, patterns already in `NewPattern` normal form -/
+/-- expressions on which `normE` changes nothing but decimal / ip literal values (whose text form parses back) and
+    the listing order of record entries (a record literal evaluates its entries in key order whatever order they are
+    listed in — since the repair of `recordLiteralEval.Eval`): patterns already in `NewPattern` normal form -/
 def semNormalE : Expr → Bool
   | .lit (.decimal d) => okEq (parseDecimal (printDecimal d)) d
   | .lit (.ip a) => okEqIP (parseIP (printIPNet a)) a
@@ -81,7 +96,7 @@ def semNormalE : Expr → Bool
   | .is e _ => semNormalE e
   | .isIn e _ r => semNormalE e && semNormalE r
   | .set es => semNormalEs es
-  | .record kes => semNormalKEs kes && strictKeys kes
+  | .record kes => semNormalKEs kes
   | .call _ args => semNormalEs args
 def semNormalEs : List Expr → Bool
   | [] => true
@@ -154,8 +169,11 @@ theorem eval_normE (e : Expr) (env : Env) (h : semNormalE e = true) : eval (norm
     simp only [normE, eval, eval_normE e env h.1, eval_normE r env h.2]
   | set es => simp only [semNormalE] at h; simp only [normE, eval, evalList_normEs es env h]
   | record kes =>
-    simp only [semNormalE, Bool.and_eq_true] at h
-    simp only [normE, sortKV_sorted _ (strictKeys_normKEs kes h.2), eval, evalKVs_normKEs kes env h.1]
+    simp only [semNormalE] at h
+    have ih := evalKVs_normKEs kes env h
+    simp only [normE]
+    rw [sortKV_eq_canonKVs, eval_recordLit_canon, normKEs_eq_map]
+    exact eval_recordLit_map normE kes env ih
   | call fn args =>
     simp only [semNormalE] at h
     simp only [normE, eval, normEs_length, evalTyped_normEs args _ env h]
@@ -166,13 +184,16 @@ theorem evalList_normEs (es : List Expr) (env : Env) (h : semNormalEs es = true)
     simp only [semNormalEs, Bool.and_eq_true] at h
     simp only [normEs, evalList, eval_normE e env h.1, evalList_normEs es env h.2]
 theorem evalKVs_normKEs (kes : List (String × Expr)) (env : Env) (h : semNormalKEs kes = true) :
-    evalKVs (normKEs kes) env = evalKVs kes env := by
+    ∀ ke ∈ kes, eval (normE ke.2) env = eval ke.2 env := by
   cases kes with
-  | nil => rfl
+  | nil => intro ke hke; cases hke
   | cons ke kes =>
     obtain ⟨k, e⟩ := ke
     simp only [semNormalKEs, Bool.and_eq_true] at h
-    simp only [normKEs, evalKVs, eval_normE e env h.1, evalKVs_normKEs kes env h.2]
+    intro ke' hke
+    rcases List.mem_cons.mp hke with hke | hke
+    · rw [hke]; exact eval_normE e env h.1
+    · exact evalKVs_normKEs kes env h.2 ke' hke
 theorem evalTyped_normEs (es : List Expr) (ks : List Kind) (env : Env) (h : semNormalEs es = true) :
     evalTyped (normEs es) ks env = evalTyped es ks env := by
   cases es with
